@@ -19,11 +19,31 @@ def parseList (s : String) : Option (List Bytes) :=
 def parseOpt (s : String) : Option (Option Bytes) :=
   if s = "~" then some none else (Bytes.ofHex s).map some
 
-/-- the schema: eleven names (name: sym key chk, alias: sym key chk, roles: sym key chk, tag: key chk) -/
+/-- the registration string: the registered indexes in registration order, letters `n a r`
+    (`-`: none); the slots that are not registered are put last (their place does not matter) -/
+def parseOrder (s : String) : Option (Bool × Bool × Bool × Perm) :=
+  let ls := s.toList.filter (fun c => c == 'n' || c == 'a' || c == 'r')
+  let full := ls ++ (['n', 'a', 'r'].filter (fun c => !ls.contains c))
+  let perm : Option Perm :=
+    match full with
+    | ['n', 'a', 'r'] => some .nar | ['n', 'r', 'a'] => some .nra | ['a', 'n', 'r'] => some .anr
+    | ['a', 'r', 'n'] => some .arn | ['r', 'n', 'a'] => some .rna | ['r', 'a', 'n'] => some .ran
+    | _ => none
+  perm.map fun p => (ls.contains 'n', ls.contains 'a', ls.contains 'r', p)
+
+/-- the schema: `<names>[;<base path>;<registration>[;<spare capacity>]]` — eleven names (name: sym key chk,
+    alias: sym key chk, roles: sym key chk, tag: key chk), the base path (default `u`), the registered
+    indexes in registration order (default `nar`); the spare capacity of the base-path slice handed
+    to the real store means nothing to the model -/
 def parseSchema (s : String) : Option Schema :=
-  match parseList s with
-  | some [a, b, c, d, e, f, g, h, i, j, k] => some ⟨⟨a, b, c⟩, ⟨d, e, f⟩, ⟨g, h, i⟩, j, k⟩
-  | _ => none
+  let parts := s.splitOn ";"
+  let names := parts.headD ""
+  let base := (parts.drop 1).headD "75"
+  let order := (parts.drop 2).headD "nar"
+  match parseList names, parseList base, parseOrder order with
+  | some [a, b, c, d, e, f, g, h, i, j, k], some bp, some (rn, ra, rr, p) =>
+    some ⟨bp, ⟨a, b, c⟩, ⟨d, e, f⟩, ⟨g, h, i⟩, j, k, rn, ra, rr, p⟩
+  | _, _, _ => none
 
 /-- a checker: `*` = nil; otherwise letters naming fields —
     n a r t: the caller-side name of name / alias / roles / tag,
@@ -126,8 +146,7 @@ def runSpec (sch : Schema) (vals : List Bytes) (txs : List (List Op)) : String :
       let dump := dumpW (Spec.render sch t')
       let shown := if dump == prev then "=" else dump
       let rec_ := specResW sch t ops ++ "#" ++ shown ++ "#" ++
-        readsW vals (StorageModel.C03.Spec.nameIndex t'.base.ents) (StorageModel.C03.Spec.aliasIndex t'.base.ents)
-          (StorageModel.C03.Spec.rolesIndex t'.base.ents) ++ "#-"
+        readsW vals (Spec.nameIndex sch t'.ents) (Spec.aliasIndex sch t'.ents) (Spec.rolesIndex sch t'.ents) ++ "#-"
       go t' dump rest (rec_ :: acc)
   "|".intercalate (go Spec.SState.empty "" txs [])
 
